@@ -207,6 +207,12 @@ FRAGS = [
     Frag("rte_place", "compio-quic/src/recv_stream.rs", expr=r"^\s*let offset = (\(offset - start\) as usize);",
          params=[("off", "nat"), ("start", "nat")], bind={"offset": "off", "start": "start"}, num="nat", sub="trunc",
          doc="read_to_end: where a chunk is copied to (start is the minimum of the offsets, so the subtraction is exact)"),
+    # ---- C05: Proactor::cancel_token: when the driver is NOT asked to cancel --------------------
+    Frag("cancel_token_skips", "compio-driver/src/lib.rs", expr=r"^\s*if (key\.set_cancelled\(\) \|\| key\.has_result\(\)) \{",
+         subst=[(r"key\.set_cancelled\(\)", "was_cancelled"), (r"key\.has_result\(\)", "has_result")],
+         params=[("was_cancelled", "bool"), ("has_result", "bool")],
+         bind={"was_cancelled": "was_cancelled", "has_result": "has_result"},
+         doc="Proactor::cancel_token returns false without touching the driver iff this holds"),
 ]
 
 # extra fragments are appended by the property builders below this line
